@@ -57,9 +57,8 @@ class C05(Property):
                         cases.append(Case("%sv%d" % (gid, j), opts, base[:posn] + [twin] + base[posn:],
                                           tags={"role": "plainword", "group": gid, "pos": posn}))
                 # a value glued onto a flag (`--all=yes`, `-a=1`): the value is an item of its own that nobody consumes
-                # (one-byte short names only: `-ж=v` is the known finding C02-short-eq-multibyte, a plain word for bpaf)
                 fl = [(i, a) for i, a in enumerate(base[:limit]) if a.startswith(b"-") and b"=" not in a and a != b"--"
-                      and (a.startswith(b"--") or len(a) == 2) and self.is_flag_item(opts, a)]
+                      and (a.startswith(b"--") or len(a[1:].decode("utf-8", "replace")) == 1) and self.is_flag_item(opts, a)]
                 if fl:
                     i, a = rng.choice(fl)
                     junk = rng.choice([b"yes", b"1", b"", b"false"])
@@ -114,8 +113,7 @@ class C05(Property):
                         if v.startswith(b"-") or v == b"":
                             v = b"w" + v.lstrip(b"-")
                         nm = (b"--" + m["n"]["long"][0].encode()) if m["n"]["long"] else (b"-" + m["n"]["short"][0].encode())
-                        # (a multi-byte short name with `=` is the known finding C02-short-eq-multibyte: write it as two items)
-                        given.append([nm + b"=" + v] if nm.startswith(b"--") or len(m["n"]["short"][0].encode()) == 1 else [nm, v])
+                        given.append([nm + b"=" + v])
                         if m["ty"] == "string":
                             marks.append(v)
                 argv = [i for gv in given for i in gv] + gen.flatten(pieces)
